@@ -300,9 +300,6 @@ class TomogramSimulator:
             zsize = mol.pos[:, 0].max() / self.scale + np.sum(img.shape)
             shape3d = (int(np.ceil(zsize)),) + shape
 
-            # reduce z axis
-            starts, stops, mtxs = starts[1:], stops[1:], mtxs[1:]
-
             for start, stop, mtx in zip(starts, stops, mtxs):
                 pool.add_task(img, start, stop, mtx, shape3d, self.order)
 
